@@ -225,6 +225,10 @@ def _worker(args):
     except Exception as e:  # harness bug
         return ("harness_error", f"{type(e).__name__}: {e}\n{traceback.format_exc()}", shard)
     rep._nt_keys = set()
+    if rep.violations:
+        # kept for the fallback replay of the whole shard (violations that need earlier cases of the same process)
+        for v in rep.violations:
+            v["shard"] = shard
     return ("ok", rep, shard)
 
 
